@@ -1,11 +1,11 @@
 PROP = dict(
     properties="Properties/C11.v",
     harness_mods=["Harness/C11.v"],
-    runs=[dict(cmd="c11", quick=40, thorough=1700)],
+    runs=[dict(cmd="c11", quick=40, thorough=1700), dict(cmd="c11gc", quick=24, thorough=600)],
     trusted_base=[
         "hand-written Gallina model coq/TrieRC/Model.v of mpt.Trie's reference counting (addRef/removeRef, getFromStore's cache side effect, Flush, updateRefCount) and of stateroot.Module (AddMPTBatch struct copy, UpdateCurrentLocal, GC), tied to the Go code by correspondence on whole histories (every DataMPT key after every event)",
         "the harness's own node parser and occurrence counter (harness/c11.go c11Parse/c11WalkRoot), independent of pkg/core/mpt",
-        "hook pkg/core/mpt/verif_hooks_c11.go (build tag verif, read-only copy of the refcount map)",
+        "hook pkg/core/mpt/verif_hooks_c11.go (build tag verif, read-only copy of the refcount map); hook pkg/core/verif_hooks_c11.go (VerifTryRunGC: the GC half of a Run tick without the flush)",
     ],
     assumptions=[
         "the general theorems carry the interface hypothesis evs_ok (per block: the reference operations net, for every hash, to occurrences(new trie) - occurrences(trie held in memory)); coq/TrieRC/Concrete.v DISCHARGES it against the concrete trie of C10 for Trie.Put, Trie.Delete and Trie.PutBatch with the addRef/removeRef placements of trie.go and batch.go transcribed as traces (C11_put_refs_net, C11_delete_refs_net, C11_put_batch_refs_net, C11_interface_discharged), so C11_latest_exact_concrete / C11_gc_mode_exact_concrete have no reference-counting hypothesis; that the transcribed placements are the calls the Go code makes is tied by the harness (hook: real deltas of every generated block = change of occurrences counted by an independent walker)",
